@@ -59,6 +59,7 @@ func (c05) Gen(tier string, seed int64) []fw.Unit {
 		}
 	}
 	us = append(us, fw.U("c128.alternate", nil, "alternations", 0))
+	us = append(us, fw.U("c128.decorated", nil, "decorated", 0))
 	us = append(us, fw.U("c128.collide", nil, "hash-collision-pairs", 0))
 	us = append(us, fw.U("c128.digitruns", nil, "digit-runs", 0))
 	us = append(us, fw.U("c128.digitruns", nil, "digit-runs", 1))
@@ -217,6 +218,13 @@ func (p c05) Exec(c *fw.Ctx, u *fw.Unit) {
 						c128Check(c, string(b), nocs)
 					}
 				}
+			}
+		}
+	case "c128.decorated":
+		for _, base := range []string{"Code128", "12345678", "a1"} {
+			for _, d := range decorate([]byte(base)) {
+				c128Check(c, string(d), false)
+				c128Check(c, string(d), true)
 			}
 		}
 	case "c128.alternate":
